@@ -96,8 +96,8 @@ def check_case(case):
     d = core.fresh_dir("c09")
     # (the crop's location may itself contain the words the crop's own
     # sub-directories and files are named with)
-    subdir = [None, "results", "my batches/xyz-result-1"][
-        core.pick([N, mode, req, form, kind, "dir"], 3)]
+    subdir = [None, "results", "my batches/xyz-result-1", "run[1]*"][
+        core.pick([N, mode, req, form, kind, "dir"], 4)]
     if subdir:
         d = os.path.join(d, subdir)
         os.makedirs(d)
